@@ -3,15 +3,16 @@
 # property the seed was made for), writes seeded/<id>/detection-final.txt, prints a table. /repo is restored after each.
 set -u
 cd "$(dirname "$0")/.."
+R="${REPO_DIR:-/repo}"
 for d in seeded/C*/; do
   id=$(basename "$d"); prop=${id:0:3}
   patch="$(pwd)/$d/patch.diff"; [ -f "$d/patch-rebased.diff" ] && patch="$(pwd)/$d/patch-rebased.diff"
-  if ! git -C /repo apply --check "$patch" 2>/dev/null; then echo "$id: patch no longer applies (superseded)"; echo "patch no longer applies to the current tree" > "$d/detection-final.txt"; continue; fi
-  git -C /repo apply "$patch"
+  if ! git -C "$R" apply --check "$patch" 2>/dev/null; then echo "$id: patch no longer applies (superseded)"; echo "patch no longer applies to the current tree" > "$d/detection-final.txt"; continue; fi
+  git -C "$R" apply "$patch"
   out=$(timeout 1500 ./check "$prop" --tier quick 2>&1 | grep -E "^(VIOLATION|OK)" | head -1)
-  git -C /repo checkout -- .
+  git -C "$R" checkout -- .
   echo "$id: $out" | cut -c1-150
   echo "$prop: $out" > "$d/detection-final.txt"
 done
-git -C /repo status --short | head -3
+git -C "$R" status --short | head -3
 git -C /verif checkout -- evidence 2>/dev/null  # evidence files written while a change was applied are not kept
